@@ -173,11 +173,26 @@ let all_vgroups () =
 let vg_members g = List.combine (List.map iz g.vg_tags) (List.map iz g.vg_refs)
 let vh_of r = match elem 1962 r with CBytes b -> parse_vh b | _ -> None
 (* the attribute vdata called [name] inside vgroup g *)
-let attr_in_vgroup g name =
+let zstr (s : Stdlib.String.t) = zlist_of_string s
+let attr_members g =
+  List.filter_map (fun (t, r) -> if t = 1962 then (match vh_of r with Some v -> Some ((v.vh_class, v.vh_name), z r) | None -> None) else None)
+    (vg_members g)
+let attr_in_vgroup_spec g name = match attr_find (attr_members g) (zstr name) with Some r -> Some (iz r) | None -> None
+let attr_in_vgroup_model g name = match sd_attr_lookup (attr_members g) (zstr name) with Some r -> Some (iz r) | None -> None
+let attr_in_vgroup_old g name =
   List.find_map (fun (t, r) ->
     if t = 1962 then
       (match vh_of r with
        | Some v when string_of_zlist v.vh_class = "Attr0.0" && string_of_zlist v.vh_name = name -> Some r
+       | _ -> None)
+    else None) (vg_members g)
+(* a raster-image attribute: vdata of class RIATTR0.0C whose (single) field carries the attribute's name *)
+let gr_attr_in_vgroup g name =
+  List.find_map (fun (t, r) ->
+    if t = 1962 then
+      (match vh_of r with
+       | Some v when string_of_zlist v.vh_class = "RIATTR0.0C" &&
+                     (match v.vh_names with f :: _ -> string_of_zlist f = name | [] -> false) -> Some r
        | _ -> None)
     else None) (vg_members g)
 let unhex_str h = if h = "-" then "" else
@@ -186,6 +201,8 @@ let unhex_str h = if h = "-" then "" else
 let one_extent toks e = match e with
   | Some [(o, n)] -> Printf.printf "DI %s = 1 %d:%d\n" (Stdlib.String.concat " " toks) (iz o) (iz n)
   | Some [] -> Printf.printf "DI %s = 0\n" (Stdlib.String.concat " " toks)
+  | Some ((o, n) :: more) ->   (* data in several blocks: a single (offset, length) cannot describe it *)
+    Printf.printf "DI %s = multi %d %d:%d\n" (Stdlib.String.concat " " toks) (1 + List.length more) (iz o) (iz n)
   | _ -> Printf.printf "DI %s = -1\n" (Stdlib.String.concat " " toks)
 
 let do_sdcheck () =
@@ -280,9 +297,49 @@ let do_di toks =
         | None when kind <> "ATTF" -> Printf.printf "DI %s = novg\n" (Stdlib.String.concat " " toks)
         | None -> one_extent toks None
         | Some (_, g) ->
-          (match attr_in_vgroup g aname with
+          (if attr_in_vgroup_model g aname <> attr_in_vgroup_spec g aname then
+             Printf.printf "AM %s model-differs\n" (Stdlib.String.concat " " toks));
+          (match attr_in_vgroup_spec g aname with
            | None -> one_extent toks (Some [])
            | Some r -> one_extent toks (data_extents ext_file inflate !img (ds ()) (z 1963) (z r) None)))
+     | "VSATT" ->
+       (* a = vdata ref, b = field index (-1 = the vdata itself), coords = index among the attributes of that field *)
+       (match vh_of a' with
+        | None -> one_extent toks None
+        | Some v ->
+          let mine = List.filter (fun at -> iz at.va_findex = b') v.vh_attrs in
+          (match List.nth_opt mine (int_of_string coords) with
+           | Some at -> one_extent toks (data_extents ext_file inflate !img (ds ()) (z 1963) at.va_ref None)
+           | None -> one_extent toks None))
+     | "VGATT" ->
+       (match List.assoc_opt a' (all_vgroups ()) with
+        | None -> one_extent toks None
+        | Some g ->
+          (match List.nth_opt g.vg_attrs (int_of_string coords) with
+           | Some (_, r) -> one_extent toks (data_extents ext_file inflate !img (ds ()) (z 1963) r None)
+           | None -> one_extent toks None))
+     | "GRATT" ->
+       (* a = 0: file attribute (vgroup of class RIG0.0), else the image's vgroup ref; coords = attribute name *)
+       let vgs = all_vgroups () in
+       let target = if a' = 0 then List.find_opt (fun (_, g) -> string_of_zlist g.vg_class = "RIG0.0") vgs
+                    else List.find_opt (fun (r, _) -> r = a') vgs in
+       (match target with
+        | None -> one_extent toks None
+        | Some (_, g) ->
+          (match gr_attr_in_vgroup g (unhex_str coords) with
+           | None -> one_extent toks None
+           | Some r -> one_extent toks (data_extents ext_file inflate !img (ds ()) (z 1963) (z r) None)))
+     | "PAL" ->
+       (* palette descriptors in directory order (specification: pal_answer); the model of GRgetpalinfo's walk is
+          run next to it (PM line) *)
+       let head = Stdlib.String.concat " " toks in
+       let show l = Stdlib.String.concat "" (List.map (fun d -> Printf.sprintf " %d/%d/%d/%d" (iz d.dd_tag) (iz d.dd_ref) (iz d.dd_off) (iz d.dd_len)) l) in
+       let cap = if count = "N" then None else Some (z (int_of_string count)) in
+       let (ret, got) = pal_answer (ds ()) cap in
+       Printf.printf "DI %s = %d%s\n" head (iz ret) (show got);
+       (match cap with
+        | Some n -> let (mr, mg) = gr_getpalinfo (ds ()) n in Printf.printf "PM %s = %d%s\n" head (iz mr) (show mg)
+        | None -> ())
      | "ANNF" | "ANNS" ->
        (* file labels / descriptions: every element of tag 100 / 101; data labels / descriptions of (720, ndg):
           elements of tag 104 / 105 whose first four bytes name that tag/ref -- the text follows them *)
@@ -301,7 +358,7 @@ let do_di toks =
        else begin
          let got = take (int_of_string count) locs in
          Printf.printf "DI %s = %d%s\n" head (List.length got)
-           (Stdlib.String.concat "" (List.map (fun (o, n) -> Printf.sprintf " %d:%d" o n) got))
+           (Stdlib.String.concat "" (List.map (fun (o, n) -> Printf.sprintf " %d:%d" o n) locs))
        end
      | _ -> Printf.printf "DI %s = ?\n" (String.concat " " toks))
   | _ -> Printf.printf "DI ? badquery\n"
